@@ -1,5 +1,5 @@
 (* C06 - nested (path-addressed) updates and slices follow list/dict semantics.  Statements only. *)
-From RU Require Import Base Types Defs BitReader World WireSpec BitReaderProofs NestedProofs NestedGlue NestedDict.
+From RU Require Import Base Types Defs BitReader World WireSpec BitReaderProofs NestedProofs NestedGlue NestedDict Layout LayoutProofs.
 Open Scope N_scope.
 
 (* the bit path: for every value and every valid path of any depth, the encoding "1 + index in bits_required(size) bits
@@ -106,3 +106,10 @@ Theorem C06_nested_packet_size_mismatch : forall St w id sl sz u payload,
   step_class St w NestedProperty (le_encode 4 id ++ [sl] ++ [sz] ++ u ++ payload) = (w, Some EAssert).
 Proof. exact nested_packet_size_mismatch. Qed.
 Print Assumptions C06_nested_packet_reaches_apply.
+
+(* the byte layout of every packet class is a TABLE (Layout.class_layout) that the translator tools/gen_packets.py regenerates from the
+   __init__ of the packet classes on every run (generated instance theorems: translated layout = class_layout); the model's step function
+   is the table-driven one: the header fields are read by the generic parser from that table and handed to the class's handler *)
+Theorem C06_step_is_table_driven : forall St w c pl, step_class St w c pl = step_layout St w c pl.
+Proof. exact step_class_is_layout. Qed.
+Print Assumptions C06_step_is_table_driven.
